@@ -213,7 +213,7 @@ impl<'a> LiveEvents<'a> {
         alias_limits: AliasLimits,
         stop_at_doc_end: bool,
     ) -> Self {
-        let input = input.strip_prefix('\u{FEFF}').unwrap_or(input);
+        // Callers pass the text with the (single) leading BOM already removed.
         Self {
             produced_any_in_doc: false,
             synthesized_null_emitted: false,
